@@ -51,6 +51,7 @@ type c09Set struct {
 	defs    [][2]string // first = root
 	failing bool        // has a member whose analysis fails
 	csp     bool
+	bad     []string // the members whose first execution fails (analysis or run time)
 }
 
 // The pool: members sharing helper templates; helpers used in several contexts; members whose
@@ -64,21 +65,21 @@ var c09Pool = []c09Set{
 		{"h", `{{.}}`}, {"a", `<p>{{template "h" .}}</p>`}, {"b", `<a title="{{template "h" .}}">x</a>`},
 		{"c", `<a href="/p?q={{template "h" .}}">y</a>`}, {"d", `<p>{{template "h" .}}!</p>`}}},
 	{defs: [][2]string{{"root", `<p>{{.}}</p>`},
-		{"f", `<a href="{{.}}`}, {"a", `<p>{{.}}</p>`}, {"b", `<ul><li>{{.}}</li></ul>`}, {"c", `{{template "a" .}}{{template "b" .}}`}}, failing: true},
+		{"f", `<a href="{{.}}`}, {"a", `<p>{{.}}</p>`}, {"b", `<ul><li>{{.}}</li></ul>`}, {"c", `{{template "a" .}}{{template "b" .}}`}}, failing: true, bad: []string{"f"}},
 	{defs: [][2]string{{"root", `ok {{.}}`},
-		{"f", `{{if .}}<a href="{{else}}<b>{{end}}x`}, {"a", `fine {{.}}`}, {"b", `{{template "a" .}}!`}, {"g", `{{template "f" .}}`}}, failing: true},
+		{"f", `{{if .}}<a href="{{else}}<b>{{end}}x`}, {"a", `fine {{.}}`}, {"b", `{{template "a" .}}!`}, {"g", `{{template "f" .}}`}}, failing: true, bad: []string{"f", "g"}},
 	{defs: [][2]string{{"root", `<ul>{{template "r" .}}</ul>`},
 		{"r", `{{if .}}<li>{{.V}}</li>{{template "r" .Next}}{{end}}`}, {"a", `<ol>{{template "r" .}}</ol>`}, {"b", `<p>{{template "a" .}}</p>`}}},
 	{defs: [][2]string{{"root", `<p>{{.}}</p>`},
-		{"f", `<a href="{{.}}`}, {"a", `{{template "f" .}}`}, {"b", `<p>{{.}}</p>`}, {"c", `<q>{{template "b" .}}</q>`}}, failing: true},
+		{"f", `<a href="{{.}}`}, {"a", `{{template "f" .}}`}, {"b", `<p>{{.}}</p>`}, {"c", `<q>{{template "b" .}}</q>`}}, failing: true, bad: []string{"f", "a"}},
 	{defs: [][2]string{{"root", `{{template "a1" .}}{{template "a2" .}}{{template "a3" .}}{{template "a4" .}}`},
 		{"a1", `<p>{{template "h" .}}</p>`}, {"a2", `<p class="c">{{template "h" .}}{{template "k" .}}</p>`},
 		{"a3", `<span>{{template "k" .}}</span>`}, {"a4", `<em>{{template "h" .}}</em>{{template "a3" .}}`},
 		{"h", `<b>{{.}}</b>`}, {"k", `<i title="{{.}}">{{.}}</i>`}}},
 	{defs: [][2]string{{"root", `<p>{{.}}</p>`},
-		{"h", `{{.}}`}, {"a", `<script>var x = {{template "h" .}};</script>`}, {"b", `<p>{{template "h" .}}</p>`}, {"c", `<style>{{.}}</style>`}}, failing: true},
+		{"h", `{{.}}`}, {"a", `<script>var x = {{template "h" .}};</script>`}, {"b", `<p>{{template "h" .}}</p>`}, {"c", `<style>{{.}}</style>`}}, failing: true, bad: []string{"a", "c"}},
 	{defs: [][2]string{{"root", `<p>{{.}}</p>`},
-		{"a", `{{template "nope" .}}`}, {"b", `<p>{{.}}</p>`}, {"c", `{{template "b" .}}{{template "b" .}}`}}, failing: true},
+		{"a", `{{template "nope" .}}`}, {"b", `<p>{{.}}</p>`}, {"c", `{{template "b" .}}{{template "b" .}}`}}, failing: true, bad: []string{"a"}},
 	{defs: [][2]string{{"root", `{{template "b" .}}`},
 		{"a", `{{. | html}}`}, {"b", `<p>{{template "a" .}}</p>`}, {"c", `<a href="/x?y={{. | urlquery}}">l</a>`}}},
 	{defs: [][2]string{{"root", `<div>{{template "p" .}}</div>`},
@@ -87,7 +88,7 @@ var c09Pool = []c09Set{
 	{defs: [][2]string{{"root", `<a {{template "at" .}}>r</a>`},
 		{"at", `title="{{.}}"`}, {"a", `<a {{template "at" .}}>x</a>`}, {"b", `<b {{template "at" .}}>y</b>`}, {"c", `<p>{{.}}</p>`}}},
 	{defs: [][2]string{{"root", `<p>{{.}}</p>`},
-		{"a", `<a onclick="f()">{{.}}</a>`}, {"b", `<p>{{.}}</p>`}, {"c", `{{template "b" .}}`}}, failing: true, csp: true},
+		{"a", `<a onclick="f()">{{.}}</a>`}, {"b", `<p>{{.}}</p>`}, {"c", `{{template "b" .}}`}}, failing: true, bad: []string{"a"}, csp: true},
 }
 
 var c09Data = []string{"s1", "s2", "n", "t", "l0", "l2", "nil"}
@@ -365,6 +366,48 @@ func runC09(c *caseWriter) (string, bool, map[string]int) {
 		}
 		p.G = append(p.G, [][]string{{"S", "root", "", ""}, {"N", "root", "", ""}, {"T", "root", s.names()[1], "s2"}})
 		progs = append(progs, c09Encode(p))
+	}
+	// interference: while one goroutine keeps executing a member, another makes the first execution of a
+	// failing member and then of a third member: whatever the failed analysis leaves behind must not
+	// make a later analysis rewrite trees that are being executed
+	for si, s := range c09Pool {
+		if !s.failing {
+			continue
+		}
+		names := s.names()
+		var good []string
+		bad := s.bad
+		for _, nm := range names {
+			isBad := false
+			for _, b := range bad {
+				if b == nm {
+					isBad = true
+				}
+			}
+			if !isBad {
+				good = append(good, nm)
+			}
+		}
+		for _, b := range bad {
+			for i, m1 := range good {
+				for j, m2 := range good {
+					if i == j {
+						continue
+					}
+					p := c09Program{Seed: int64(2000 + 100*si + 10*i + j), Defs: s.defs, Reps: 4, CSP: s.csp}
+					var busy [][]string
+					for k := 0; k < 40; k++ {
+						busy = append(busy, []string{"E", m1, "", c09Data[k%3]})
+					}
+					p.G = [][][]string{
+						busy,
+						{{"E", m1, "", "s2"}, {"E", b, "", "s1"}, {"E", m2, "", "s2"}, {"E", m1, "", "s1"}},
+						{{"T", "root", m1, "n"}, {"T", "root", b, "s2"}, {"T", "root", m2, "s1"}},
+					}
+					progs = append(progs, c09Encode(p))
+				}
+			}
+		}
 	}
 	// contention: every goroutine makes the SAME first call on the SAME member of a fresh set, many
 	// repetitions, so that the lookup / analysis / commit of one member is entered by several
